@@ -29,6 +29,8 @@ C11_NoMarkedPromotedRow == IsPromo => R.p \notin ToSet(R.recovery)
 C16_NoCascadePromotedRow == IsPromo => R.p \notin ToSet(R.cascade)
 \* C19: not promoted while relaxed or registered
 C19_NotPromotedRelaxedRow == IsPromo => H[R.p].dur = "safe" /\ R.p \notin ToSet(R.optreg)
+\* C19: the speed-up phase has ended before the freeze: no durability-relaxing statement after the first freeze call
+C19_PhaseEndsBeforeFreezeRow == IsAttempt => R.relaxafterfreeze = 0
 \* C14 at the call site: never the host the switch moves away from
 C14_NeverFromRow == IsPromo /\ R.from # "" => R.p # R.from
 \* C03: lock re-confirmed after freezing and again after catch-up
